@@ -220,12 +220,10 @@ def translate_expression(expr, env: Env) -> TExp:  # noqa: C901
             if arg_l != arg_r:
                 raise TypeErrorException(tleft[0], tcomp[0])
 
-            if isinstance(expr.ops[0], ast.Eq):
-                op = Qbool.eq
-            elif isinstance(expr.ops[0], ast.NotEq):
-                op = Qbool.neq
-            else:
+            # a != b is not (a == b): one differing bit is enough
+            if not isinstance(expr.ops[0], (ast.Eq, ast.NotEq)):
                 raise exceptions.OperationNotSupportedException(bool, expr.ops[0])
+            op = Qbool.eq
 
             c = True
             idx = 0
@@ -238,6 +236,8 @@ def translate_expression(expr, env: Env) -> TExp:  # noqa: C901
                         c = And(c, op((bool, tleft[1][idx]), (bool, tcomp[1][idx]))[1])
                         idx += 1
 
+            if isinstance(expr.ops[0], ast.NotEq):
+                c = Not(c)
             return (bool, c)
 
         elif issubclass(tleft[0], Qtype) and issubclass(tcomp[0], Qtype):  # type: ignore
